@@ -4,25 +4,36 @@
    named-in-outer / named-in-inner / both / neither (DESIGN.md C20). *)
 EXTENDS Settings, TLC, Json
 CONSTANTS Vals, MaxDepth, MaxSteps, Emit,
+          Deferred,    \* "no": contexts are created and entered in one step; "only": created first, entered by a later step; "both"
           NK           \* number of settings; the keys are 1..NK (cfg: Keys <- KeysDef)
 KeysDef == 1..NK
-VARIABLES steps, expect
-vars == <<cur, stack, steps, expect>>
+VARIABLES steps, expect,
+          pend         \* a context object that has been created (cm = settings.context(...)) but not entered yet: <<>> or <<[named, vals]>>
+vars == <<cur, stack, steps, expect, pend>>
 
-Init == SInit([k \in Keys |-> 0]) /\ steps = <<>> /\ expect = <<>>
+Init == SInit([k \in Keys |-> 0]) /\ steps = <<>> /\ expect = <<>> /\ pend = <<>>
 Log(s) == steps' = Append(steps, s) /\ expect' = Append(expect, cur')
 KeySeq == [i \in 1..NK |-> i]
 Named(n) == [i \in 1..NK |-> KeySeq[i] \in n]
 ValSeq(v) == [i \in 1..NK |-> v[KeySeq[i]]]
 Next == /\ Len(steps) < MaxSteps
-        /\ \/ \E named \in (SUBSET Keys \ {{}}), vals \in [Keys -> Vals] :
-                /\ Len(stack) < MaxDepth
+        /\ \/ \* creating the context object does nothing yet; what it restores at exit is what the settings are when it is *entered*
+              \E k \in Keys, v \in Vals :
+                /\ Deferred # "no" /\ pend = <<>> /\ Len(stack) < MaxDepth
+                /\ pend' = <<[named |-> {k}, vals |-> [j \in Keys |-> IF j = k THEN v ELSE CHOOSE w \in Vals : TRUE]]>>
+                /\ UNCHANGED <<cur, stack>>
+                /\ Log([act |-> "Create", named |-> Named({k}), vals |-> ValSeq([j \in Keys |-> IF j = k THEN v ELSE CHOOSE w \in Vals : TRUE]), lvl |-> 0])
+           \/ /\ pend # <<>> /\ Len(stack) < MaxDepth
+              /\ Enter(pend[1].named, pend[1].vals) /\ pend' = <<>>
+              /\ Log([act |-> "EnterCreated", named |-> Named(pend[1].named), vals |-> ValSeq(pend[1].vals), lvl |-> 0])
+           \/ \E named \in (SUBSET Keys \ {{}}), vals \in [Keys -> Vals] :
+                /\ Deferred # "only" /\ UNCHANGED pend /\ Len(stack) < MaxDepth
                 /\ \A k \in Keys \ named : vals[k] = CHOOSE v \in Vals : TRUE     \* unnamed values are irrelevant: fix them
                 /\ Enter(named, vals)
                 /\ Log([act |-> "Enter", named |-> Named(named), vals |-> ValSeq(vals), lvl |-> 0])
-           \/ ExitOne /\ Log([act |-> "Exit", named |-> [i \in 1..NK |-> FALSE], vals |-> [i \in 1..NK |-> 0], lvl |-> 0])
-           \/ \E lvl \in 0..MaxDepth : Raise(lvl) /\ Log([act |-> "Raise", named |-> [i \in 1..NK |-> FALSE], vals |-> [i \in 1..NK |-> 0], lvl |-> lvl])
-           \/ \E k \in Keys, v \in Vals : Assign(k, v) /\ Log([act |-> "Assign", named |-> Named({k}), vals |-> ValSeq([j \in Keys |-> v]), lvl |-> 0])
+           \/ UNCHANGED pend /\ ExitOne /\ Log([act |-> "Exit", named |-> [i \in 1..NK |-> FALSE], vals |-> [i \in 1..NK |-> 0], lvl |-> 0])
+           \/ UNCHANGED pend /\ \E lvl \in 0..MaxDepth : Raise(lvl) /\ Log([act |-> "Raise", named |-> [i \in 1..NK |-> FALSE], vals |-> [i \in 1..NK |-> 0], lvl |-> lvl])
+           \/ UNCHANGED pend /\ \E k \in Keys, v \in Vals : Assign(k, v) /\ Log([act |-> "Assign", named |-> Named({k}), vals |-> ValSeq([j \in Keys |-> v]), lvl |-> 0])
 Spec == Init /\ [][Next]_vars
 
 PropExitRestores == [][ExitRestores]_vars
@@ -37,5 +48,5 @@ CurSeq(c) == [i \in 1..NK |-> c[KeySeq[i]]]
 EmitInv == (Emit /\ Len(steps) = MaxSteps) =>
    PrintT(ToJson([steps |-> steps, expect |-> [i \in 1..Len(expect) |-> CurSeq(expect[i])],
                   closing |-> LET cl == Closing(cur, stack) IN [i \in 1..Len(cl) |-> CurSeq(cl[i])]]))
-View == <<cur, stack, Len(steps)>>
+View == <<cur, stack, Len(steps), pend>>
 =============================================================================
